@@ -142,30 +142,50 @@ def record_random(args):
 
 def builders_case(F, T, r, sk, traw):
     """lock / witness / decrypt builders: adapter witness satisfies the adapter lock; the decrypted signature
-    satisfies the signature lock; the adapter itself and a wrong decryption do not"""
+    satisfies the signature lock; the adapter itself and a wrong decryption do not.  Variants: the two-lock
+    builder from the tweak point, the three-script builder from the tweak scalar, and the (deprecated)
+    combined locks that check, decrypt and verify in one script."""
     t = E.clamp(traw)
     Tp = E.base_mult_noclamp(t)
     pk = E.public_key(sk)
     sf = {f'sigfield{i}': r.randbytes(r.choice([1, 8, 40])) for i in range(1, 9) if r.random() < 0.5} or {'sigfield1': b'x'}
-    flags = r.choice(['00', '00', '01', '80'])
+    flags = r.choice(['00', '00', '01', '02', '05', '80'])
     if int(flags, 16) and all(((int(flags, 16) >> (i - 1)) & 1) for i in range(1, 9) if f'sigfield{i}' in sf):
         flags = '00'
+    variant = r.choice(['pub', 'prv', 'one_pub', 'one_prv'])
+    alt = r.choice(['none', 'none', 'T', 'X', 'm'])
+    dsame = r.random() < 0.6
+    other_pk = E.public_key(r.randbytes(32))
+    wrong_tw = r.randbytes(32)
     try:
-        lock1, lock2 = T.make_adapter_locks_pub(pk, Tp, flags)
         wit = T.make_adapter_witness(sk, Tp, sf, flags)
-        alt = r.choice(['none', 'none', 'T', 'X', 'm'])
         cache = dict(sf)
-        l1 = lock1
-        if alt == 'T':
-            l1, _ = T.make_adapter_locks_pub(pk, E.point_add(Tp, G), flags)
-        elif alt == 'X':
-            l1, _ = T.make_adapter_locks_pub(E.public_key(r.randbytes(32)), Tp, flags)
-        elif alt == 'm':
+        if alt == 'm':
             k = [k for k in sf if not (int(flags, 16) >> (int(k[-1]) - 1)) & 1][0]
             cache[k] = cache[k] + b'!'
+        lpk = other_pk if alt == 'X' else pk
+        if variant in ('one_pub', 'one_prv'):
+            # one script: check_adapter_sig verify; decrypt with the pushed scalar; check_sig.  Accepts iff the
+            # adapter checks AND the decryption verifies
+            if variant == 'one_pub':
+                lock = T.make_adapter_lock_pub(lpk, E.point_add(Tp, G) if alt == 'T' else Tp, flags)
+            else:
+                lock = T.make_adapter_lock_prv(lpk, r.randbytes(32) if alt == 'T' else traw, flags)
+            w = push(t if dsame else E.clamp(wrong_tw)) + bytes(wit.bytes)
+            ok = F.run_auth_scripts([w, bytes(lock.bytes)], cache)
+            return {'alt': alt, 'dsame': dsame, 'ctor': 'pub', 'variant': variant, 'flags': flags, 'combined': True,
+                    'got': ['accept' if ok else 'reject', '', '']}
+        if variant == 'pub':
+            l1, lock2 = T.make_adapter_locks_pub(lpk, E.point_add(Tp, G) if alt == 'T' else Tp, flags)
+            _, lock2 = T.make_adapter_locks_pub(pk, Tp, flags)
+            sig = T.decrypt_adapter(wit, traw if dsame else wrong_tw)
+        else:
+            l1, dec, lock2 = T.make_adapter_locks_prv(lpk, r.randbytes(32) if alt == 'T' else traw, flags)
+            _, dec, lock2 = T.make_adapter_locks_prv(pk, traw if dsame else wrong_tw, flags)
+            _, st, _ = F.run_script(bytes(wit.bytes) + bytes(dec.bytes), {})
+            s_ = st.get()
+            sig = st.get() + s_
         check = F.run_auth_scripts([bytes(wit.bytes), bytes(l1.bytes)], cache)
-        dsame = r.random() < 0.6
-        sig = T.decrypt_adapter(wit, traw if dsame else r.randbytes(32))
         if flags != '00':
             sig += bytes.fromhex(flags)
         ok = F.run_auth_scripts([push(sig), bytes(lock2.bytes)], dict(sf))
@@ -173,12 +193,57 @@ def builders_case(F, T, r, sk, traw):
         sa, R = raw[2:34], raw[36:68]
         fake = R + sa + (bytes.fromhex(flags) if flags != '00' else b'')
         if F.run_auth_scripts([push(fake), bytes(lock2.bytes)], dict(sf)):
-            return {'alt': alt, 'dsame': dsame, 'ctor': 'pub', 'got': ['adapter-accepted-as-signature', '', '']}
-        return {'alt': alt, 'dsame': dsame, 'ctor': 'pub', 'got': ['check' if check else 'nocheck', 'sig' if ok else 'nosig', 'extract']}
+            return {'alt': alt, 'dsame': dsame, 'ctor': 'pub', 'variant': variant, 'flags': flags, 'combined': False,
+                    'got': ['adapter-accepted-as-signature', '', '']}
+        return {'alt': alt, 'dsame': dsame, 'ctor': 'pub', 'variant': variant, 'flags': flags, 'combined': False,
+                'got': ['check' if check else 'nocheck', 'sig' if ok else 'nosig', 'extract']}
     except BaseException as e:
         if isinstance(e, (KeyboardInterrupt, SystemExit)):
             raise
-        return {'alt': 'none', 'dsame': True, 'ctor': 'pub', 'got': [f'builder-raised-{type(e).__name__}', '', '']}
+        return {'alt': 'none', 'dsame': True, 'ctor': 'pub', 'variant': variant, 'flags': flags, 'combined': False,
+                'got': [f'builder-raised-{type(e).__name__}', '', '']}
+
+
+def flip_sweep(args):
+    """every single-bit corruption of each of the five check inputs, for adapters chosen so that the edge
+    encodings occur (top byte of sa equal to 0x00 and to 0x0f / 0x10, empty and long messages).  One case per
+    (adapter, input): got = 'check' if ANY single-bit flip of that input still passed."""
+    seed, count = args
+    F, _ = _impl()
+    out = []
+    for j in range(count):
+        r = random.Random(f'flip/{seed}/{j}')
+        want_top = [0x00, None, 0x0f, None][j % 4]
+        for attempt in range(400):
+            sk = r.randbytes(32)
+            m = r.randbytes(r.choice([0, 1, 32, 70]))
+            t = E.clamp(r.randbytes(32))
+            X, Tp = E.public_key(sk), E.base_mult_noclamp(t)
+            st = run(F, push(sk) + push(m) + push(Tp) + op('MAKE_ADAPTER_SIG_PUBLIC'))
+            if st is None or len(st) != 2:
+                continue
+            R, sa = st
+            if want_top is None or (sa[31] == want_top if want_top == 0 else sa[31] >= want_top):
+                break
+        vals = {'X': X, 'T': Tp, 'm': m, 'R': R, 'sa': sa}
+        base = run(F, push(sa) + push(R) + push(m) + push(Tp) + push(X) + op('CHECK_ADAPTER_SIG'))
+        out.append({'alt': 'none', 'dsame': True, 'ctor': 'pub', 'sweep': True, 'top': sa[31], 'bit': -1,
+                    'got': ['check' if base == [b'\xff'] else 'nocheck', 'sig', 'extract']})
+        for name in ('sa', 'R', 'T', 'm', 'X'):
+            b = vals[name]
+            passed = -1
+            for bit in range(8 * len(b)):
+                v = dict(vals)
+                v[name] = b[:bit // 8] + bytes([b[bit // 8] ^ (1 << (bit % 8))]) + b[bit // 8 + 1:]
+                st = run(F, push(v['sa']) + push(v['R']) + push(v['m']) + push(v['T']) + push(v['X']) + op('CHECK_ADAPTER_SIG'))
+                if st == [b'\xff']:
+                    passed = bit
+                    break
+            if name == 'm' and not b:
+                continue
+            out.append({'alt': name, 'dsame': True, 'ctor': 'pub', 'sweep': True, 'top': sa[31], 'bit': passed,
+                        'got': ['check' if passed >= 0 else 'nocheck', 'sig', 'extract']})
+    return out
 
 
 def main(tier: str, seed: int) -> int:
@@ -189,17 +254,27 @@ def main(tier: str, seed: int) -> int:
                 'ExtractRecovers, AdapterNotASig, and F13Fails (the implemented private-tweak construction deviates); every case '
                 'concretised (real seeds, messages, scalars incl. 1 and L-1) through the four instructions; the decrypted '
                 'signature is verified by the pure-Python RFC 8032 verifier and by PyNaCl. traces: random seeds, messages of '
-                '0..512 bytes, random 32-byte tweaks (clamped by the builders), single-bit corruption of each check input, and '
-                'the lock / witness / decrypt builders end to end through run_auth_scripts, judged by TLC.')
+                '0..512 bytes, random 32-byte tweaks (clamped by the builders), single-bit corruption of each check input; '
+                'EVERY single-bit corruption of each of the five check inputs for adapters chosen to hit the edge encodings (top byte '
+                'of sa 0x00 / >= 0x0f); and the lock / witness / decrypt builders end to end through run_auth_scripts - the two-lock '
+                'builder from the tweak point, the three-script builder from the tweak scalar, and the combined one-script locks '
+                '(accept iff the adapter checks and its decryption verifies) - under sigflags that do / do not mask present '
+                'sigfields, judged by TLC.')
     rep.assumptions = ['symbolic algebra: claims hold up to hash collisions / discrete-log coincidences',
                        'tweak scalars congruent to 0 are excluded (T = identity is not a valid point)']
     quick = tier == 'quick'
     scncheck.mc(rep, 'Adapter', 'mc', INV, run_mc, known=known, workers=4)
     import multiprocessing as mp
-    n = 1500 if quick else 30000
+    n = 6000 if quick else 40000
     with mp.get_context('fork').Pool(14) as pool:
         cases = [c for ch in pool.map(record_random, [(seed * 41 + i, n // 28, 0) for i in range(28)]) for c in ch]
+        sweeps = [c for ch in pool.map(flip_sweep, [(seed * 43 + i, 2 if quick else 12) for i in range(28)]) for c in ch]
+    for c in cases + sweeps:
+        c.setdefault('combined', False)
     scncheck.judge(rep, 'Adapter', [], cases, 'random adapter scenarios', known=known)
+    scncheck.judge(rep, 'Adapter', [], sweeps, 'exhaustive single-bit corruption sweeps', known=known, shards=2)
+    rep.extra['bit_sweeps'] = {'adapters': sum(1 for c in sweeps if c['alt'] == 'none'),
+                               'with_sa_top_byte_zero': sum(1 for c in sweeps if c['alt'] == 'none' and c['top'] == 0)}
     return rep.finish()
 
 
